@@ -1047,7 +1047,9 @@ void Adaptation::Icap::ModXact::prepPartialBodyEchoing(uint64_t pos)
 void Adaptation::Icap::ModXact::handleUnknownScode()
 {
     stopParsing(false);
-    stopBackup();
+    // Do not stopBackup() here: the exception thrown below may be bypassed
+    // (see callException()), and echoing the virgin body needs the backup.
+    // If there is no bypass, swanSong() releases the virgin body anyway.
     // TODO: mark connection as "bad"
 
     // Terminate the transaction; we do not know how to handle this response.
